@@ -5,6 +5,7 @@ import (
 	"strings"
 
 	validate "buf.build/gen/go/bufbuild/protovalidate/protocolbuffers/go/buf/validate"
+	"google.golang.org/protobuf/proto"
 
 	"verif/internal/spec"
 )
@@ -395,4 +396,67 @@ func TwinPackages(pkgPrefix, goPrefix string) []*spec.File {
 		return f
 	}
 	return []*spec.File{mk("twa", false), mk("twb", true)}
+}
+
+// EnumRuleVariant is one buf.validate enum rule placed on every enum-typed carrier of EnumRulesFile.
+type EnumRuleVariant struct {
+	ID    string
+	Rules *validate.EnumRules
+}
+
+// EnumRuleVariants: in / not_in / const / defined_only over an enum that declares 0,1,2 (proto3 enums
+// are open: a rule may name a number the enum gives no name to, and protovalidate accepts that).
+func EnumRuleVariants() []EnumRuleVariant {
+	return []EnumRuleVariant{
+		{"in/declared-numbers", &validate.EnumRules{In: []int32{1, 2}}},
+		{"in/with-undeclared-number", &validate.EnumRules{In: []int32{1, 2, 7}}},
+		{"in/only-undeclared-negative", &validate.EnumRules{In: []int32{-3}}},
+		{"not_in/zero", &validate.EnumRules{NotIn: []int32{0}}},
+		{"not_in/with-undeclared-number", &validate.EnumRules{NotIn: []int32{0, 7}}},
+		{"not_in/every-declared-number", &validate.EnumRules{NotIn: []int32{0, 1, 2}}},
+		{"const/declared-number", &validate.EnumRules{Const: proto.Int32(1)}},
+		{"const/undeclared-number", &validate.EnumRules{Const: proto.Int32(7)}},
+		{"defined_only/true", &validate.EnumRules{DefinedOnly: proto.Bool(true)}},
+		{"defined_only+in/undeclared", &validate.EnumRules{DefinedOnly: proto.Bool(true), In: []int32{2, 9}}},
+	}
+}
+
+// EnumRulesFile: one service whose request and response carry the rule on a singular enum field
+// (name-encoded, NUMBER-encoded, with custom enum_value strings), a proto3-optional one, a oneof
+// variant, list elements (repeated.items.enum) and map values (map.values.enum).
+func EnumRulesFile(pkg, goName string, v EnumRuleVariant) *spec.File {
+	f := &spec.File{Path: "misc/" + goName + "/enum_rules.proto", Package: pkg, GoImport: "lab/gen/" + goName, GoName: goName}
+	f.Enums = []*spec.EnumDef{
+		{Name: "OrderStatus", Values: []spec.EnumValue{{Name: "ORDER_STATUS_UNSPECIFIED", Num: 0}, {Name: "ORDER_STATUS_OPEN", Num: 1}, {Name: "ORDER_STATUS_CLOSED", Num: 2}}},
+		{Name: "Shade", Values: []spec.EnumValue{{Name: "SHADE_UNSPECIFIED", Num: 0, JSON: spec.S("none")}, {Name: "SHADE_LIGHT", Num: 1, JSON: spec.S("light")}, {Name: "SHADE_DARK", Num: 2}}},
+	}
+	rule := func() *validate.FieldRules {
+		return &validate.FieldRules{Type: &validate.FieldRules_Enum{Enum: proto.Clone(v.Rules).(*validate.EnumRules)}}
+	}
+	st, sh := "."+pkg+".OrderStatus", "."+pkg+".Shade"
+	withRule := func(fl *spec.Field) *spec.Field { fl.Ann.Rules = rule(); return fl }
+	carrier := &spec.Message{Name: "Carrier", Oneofs: []*spec.Oneof{{Name: "choice"}}, Fields: []*spec.Field{
+		withRule(spec.FE("status", 1, st)),
+		withRule(spec.FE("status_number", 2, st)).With(func(a *spec.Ann) { a.EnumEnc = 2 }),
+		withRule(spec.FE("shade", 3, sh)),
+		withRule(spec.FE("maybe_status", 4, st).Opt()),
+		withRule(spec.FE("picked", 5, st).In(1)),
+		spec.F("label", 6, spec.String).In(1),
+		spec.FE("statuses", 7, st).Rep().With(func(a *spec.Ann) {
+			a.Rules = &validate.FieldRules{Type: &validate.FieldRules_Repeated{Repeated: &validate.RepeatedRules{Items: rule()}}}
+		}),
+		spec.FE("by_key", 8, sh).MapOf(spec.String).With(func(a *spec.Ann) {
+			a.Rules = &validate.FieldRules{Type: &validate.FieldRules_Map{Map: &validate.MapRules{Values: rule()}}}
+		}),
+		// the rule switched off: nothing of it may matter
+		spec.FE("ignored", 9, st).With(func(a *spec.Ann) { r := rule(); r.Ignore = validate.Ignore_IGNORE_ALWAYS.Enum(); a.Rules = r }),
+		spec.FE("plain", 10, st),
+	}}
+	find := &spec.Message{Name: "FindReq", Fields: []*spec.Field{withRule(spec.FE("status", 1, st)).Q("status"), withRule(spec.FE("shade", 2, sh)).QReq("shade")}}
+	f.Messages = []*spec.Message{carrier, find, {Name: "Ack", Fields: []*spec.Field{spec.F("ok", 1, spec.Bool), spec.FM("echo", 2, "."+pkg+".Carrier")}}}
+	f.Services = []*spec.Service{{Name: "EnumRuleService", BasePath: spec.S("/enum-rules"), Methods: []*spec.Method{
+		{Name: "Put", In: "." + pkg + ".Carrier", Out: "." + pkg + ".Ack", HTTP: &spec.HTTP{Path: "/put", Verb: 2}},
+		{Name: "Find", In: "." + pkg + ".FindReq", Out: "." + pkg + ".Carrier", HTTP: &spec.HTTP{Path: "/find", Verb: 1}},
+	}}}
+	return f
 }
